@@ -30,6 +30,10 @@ import (
 	"time"
 
 	apicommon "github.com/enfein/mieru/v3/apis/common"
+	"github.com/enfein/mieru/v3/pkg/appctl/appctlpb"
+	"github.com/enfein/mieru/v3/pkg/egress"
+	"google.golang.org/protobuf/proto"
+	"runtime"
 	"github.com/enfein/mieru/v3/apis/model"
 	mlog "github.com/enfein/mieru/v3/pkg/log"
 	"github.com/enfein/mieru/v3/pkg/protocol"
@@ -983,6 +987,318 @@ func childClient(r *vh.Run, o *childOut, tr string) {
 	}
 }
 
+
+// ---------------------------------------------------------------- scenario: back-to-back bursts (UDP server)
+// Per burst 16 pairs (open request of user alice with a fresh id from a fresh address, IMMEDIATELY followed by
+// a segment of user bob carrying that id from another address) are queued in the server socket before the
+// server's event loop runs: the second datagram of a pair is dispatched while the session created by the first
+// has not processed anything yet (half of the bursts with GOMAXPROCS(1), where that order is certain).
+func childBurst(r *vh.Run, o *childOut) {
+	rng := r.Rng.Fork()
+	rg, v, err := startServerWithVictim("udp", rng)
+	if err != nil {
+		o.put(rec{T: "fail", Sig: "setup-burst", What: err.Error()})
+		return
+	}
+	var infoRemote string
+	for _, it := range rg.Server.ExportSessionInfoList().GetItems() {
+		infoRemote = it.GetRemoteAddr()
+	}
+	srv := &net.UDPAddr{IP: net.ParseIP("192.0.2.1"), Port: 8964}
+	bursts := 8
+	if r.Thorough() {
+		bursts = 60
+	}
+	bobTypes := []uint8{4, 6, 4, 8, 5, 7, 4, 6, 10, 4, 6, 4, 9, 4, 6, 4}
+	sid := uint32(500000)
+	for b := 0; b < bursts; b++ {
+		if b%2 == 0 {
+			runtime.GOMAXPROCS(1)
+		} else {
+			runtime.GOMAXPROCS(2)
+		}
+		alice, bob := mkCred("alice", alicePass, 1), mkCred("bob", bobPass, 2)
+		type pair struct {
+			sid      uint32
+			h2       hseg
+			sa, sb   *simnet.PacketConn
+			d1, d2   []byte
+			cl1, cl2 string
+		}
+		var mu sync.Mutex
+		replies := map[uint32]bool{}
+		var ps []pair
+		for i := 0; i < 16; i++ {
+			sid += 3
+			var q pair
+			q.sid = sid
+			q.sa, _ = rg.Net.NewClientSock(fmt.Sprintf("10.2.%d.%d", b%250, 2*i+1))
+			q.sb, _ = rg.Net.NewClientSock(fmt.Sprintf("10.3.%d.%d", b%250, 2*i+2))
+			go func(sock *simnet.PacketConn, key []byte) {
+				buf := make([]byte, 2000)
+				for {
+					n, _, err := sock.ReadFrom(buf)
+					if err != nil {
+						return
+					}
+					if seg, _, err := refcodec.DecodeDatagram([][]byte{key}, buf[:n]); err == nil && seg.Meta.Proto == refcodec.CloseSessionRequest {
+						mu.Lock()
+						replies[seg.Meta.SessionID] = true
+						mu.Unlock()
+					}
+				}
+			}(q.sb, bob.key)
+			h1 := defSeg(2, sid)
+			q.h2 = defSeg(bobTypes[(i+b)%len(bobTypes)], sid)
+			if q.h2.Proto == 6 {
+				q.h2.PLen = 10
+			}
+			if isLEP(q.h2.Proto) {
+				q.h2.LE = 1
+			}
+			q.d1, q.d2 = h1.datagram(rng, alice), q.h2.datagram(rng, bob)
+			q.cl1, q.cl2 = caseLine("W", h1, false, "u", 1), caseLine("W", q.h2, false, "u", 2)
+			ps = append(ps, q)
+		}
+		o.put(rec{T: "case", C: fmt.Sprintf("I s u 0 1 %d 1 1 1", v.sid), I: "-"})
+		o.put(rec{T: "case", C: ps[0].cl1, I: "opened"}) // replayed below for the model state; the first pair's open precedes the pending line
+		o.put(rec{T: "pending", C: ps[0].cl2, K: fmt.Sprintf("burst-%d-gomaxprocs-%d", b, 1+b%2)})
+		before := snapshot(rg.Server)
+		// back to back: nothing below blocks or sleeps until all 32 datagrams are in the server's socket queue
+		for i := range ps {
+			ps[i].sa.WriteTo(ps[i].d1, srv)
+			ps[i].sb.WriteTo(ps[i].d2, srv)
+		}
+		time.Sleep(5 * time.Millisecond)
+		if err := v.roundTrip(rng); err != nil {
+			o.put(rec{T: "fail", Sig: "victim-transfer-broken", What: "alice's echo transfer failed after a burst: " + err.Error(), Case: fmt.Sprintf("burst %d", b)})
+		}
+		time.Sleep(settle)
+		after := snapshot(rg.Server)
+		o.put(rec{T: "case", C: fmt.Sprintf("I s u 0 1 %d 1 1 1", v.sid), I: "-"})
+		for _, q := range ps {
+			k := skey(q.sid, infoRemote)
+			obs1 := "live"
+			if _, was := before[k]; !was {
+				if _, is := after[k]; is {
+					obs1 = "opened"
+				}
+			}
+			obs2 := "live"
+			mu.Lock()
+			if replies[q.sid] {
+				obs2 = "reply"
+			}
+			mu.Unlock()
+			if obs1 == "opened" && !openIn(after, k) {
+				obs2 = "sessclosed"
+				o.put(rec{T: "fail", Sig: "cross-user-session-closed", What: "a segment of bob queued right behind alice's open request closed the new session", Case: q.cl2})
+			}
+			o.put(rec{T: "case", C: q.cl1, I: obs1})
+			o.put(rec{T: "case", C: q.cl2, I: obs2})
+			o.put(rec{T: "count", K: "burst/udp/" + obs2})
+			o.put(rec{T: "distinct", K: fmt.Sprintf("burst/p%d/gomaxprocs%d", q.h2.Proto, 1+b%2)})
+		}
+		if !openIn(after, v.key) {
+			o.put(rec{T: "fail", Sig: "victim-session-closed", What: "alice's session is no longer open after a burst", Case: fmt.Sprintf("burst %d", b)})
+		}
+		for _, q := range ps {
+			q.sa.WriteTo(defSeg(4, q.sid).datagram(rng, alice), srv)
+		}
+		time.Sleep(20 * time.Millisecond)
+		for _, q := range ps {
+			q.sa.Close()
+			q.sb.Close()
+		}
+	}
+	runtime.GOMAXPROCS(2)
+	v.conn.Close()
+	rg.Close()
+}
+
+// ---------------------------------------------------------------- scenario: the real SOCKS5 server request path
+type userConn struct {
+	net.Conn
+	user string
+}
+
+func (c userConn) UserName() string { return c.user }
+
+type memListener struct {
+	ch     chan net.Conn
+	closed chan struct{}
+}
+
+func (l *memListener) Accept() (net.Conn, error) {
+	select {
+	case c := <-l.ch:
+		return c, nil
+	case <-l.closed:
+		return nil, net.ErrClosed
+	}
+}
+func (l *memListener) Close() error   { return nil }
+func (l *memListener) Addr() net.Addr { return &net.TCPAddr{IP: net.IPv4(127, 0, 0, 1), Port: 1080} }
+
+func newSocksServer() *socks5.Server {
+	srv, err := socks5.New(&socks5.Config{
+		Users:            map[string]*appctlpb.User{"alice": {Name: proto.String("alice"), Password: proto.String("x")}},
+		Resolver:         apicommon.NilDNSResolver{},
+		HandshakeTimeout: 2 * time.Second,
+	})
+	if err != nil {
+		panic(err)
+	}
+	return srv
+}
+
+// destinations that never make the server wait on the real network: public addresses are unreachable at once in
+// the sandbox, private and loopback ones are decided by the egress rules, names go to a resolver that fails
+func socksDests() [][]byte {
+	var out [][]byte
+	v4 := [][]byte{{1, 2, 3, 4}, {8, 8, 8, 8}, {127, 0, 0, 1}, {127, 255, 255, 254}, {10, 0, 0, 1}, {192, 168, 1, 1}, {172, 16, 0, 1}, {0, 0, 0, 0}, {255, 255, 255, 255}, {203, 0, 113, 9}}
+	for _, a := range v4 {
+		out = append(out, append(append([]byte{1}, a...), 0, 80))
+	}
+	v6 := []string{"::1", "::", "2001:db8::1", "::ffff:127.0.0.1", "::ffff:1.2.3.4", "fc00::1", "ff02::1"}
+	for _, a := range v6 {
+		out = append(out, append(append([]byte{4}, net.ParseIP(a).To16()...), 1, 187))
+	}
+	names := []string{"", ".", "a", "localhost", "LOCALHOST", "localhost.", "ip6-localhost", "example.com", "example.com.", "..", "\x00", strings.Repeat("a", 255), strings.Repeat(".", 255), strings.Repeat("a", 254) + "."}
+	for _, n := range names {
+		out = append(out, append(append([]byte{3, byte(len(n))}, n...), 0, 53))
+	}
+	for _, t := range []byte{0, 2, 5, 6, 127, 255} {
+		out = append(out, append([]byte{t}, 1, 2, 3, 4, 5, 6, 7))
+	}
+	return out
+}
+
+func socksRequests(r *vh.Run) [][]byte {
+	var reqs [][]byte
+	cmds := []byte{1, 2, 3, 0, 4, 255}
+	for _, d := range socksDests() {
+		for _, c := range cmds {
+			if c != 1 && c != 3 && len(d) > 40 {
+				continue
+			}
+			reqs = append(reqs, append([]byte{5, c, 0}, d...))
+		}
+	}
+	// truncations, wrong version, non-zero reserved byte
+	base := [][]byte{{5, 1, 0, 1, 1, 2, 3, 4, 0, 80}, {5, 1, 0, 3, 0, 0, 80}, {5, 3, 0, 3, 9, 'l', 'o', 'c', 'a', 'l', 'h', 'o', 's', 't', 0, 80}, {5, 1, 0, 4, 0, 0, 0, 0, 0, 0, 0, 0, 0, 0, 0, 0, 0, 0, 0, 1, 0, 80}}
+	for _, b := range base {
+		for k := 0; k < len(b); k++ {
+			reqs = append(reqs, append([]byte(nil), b[:k]...))
+		}
+		reqs = append(reqs, append([]byte{4}, b[1:]...), append([]byte{5, b[1], 9}, b[3:]...))
+	}
+	n := 30
+	if r.Thorough() {
+		n = 600
+	}
+	ds := socksDests()
+	for i := 0; i < n; i++ {
+		g := r.Rng.Fork()
+		d := append([]byte(nil), ds[g.Intn(len(ds))]...)
+		q := append([]byte{5, byte(g.Intn(5)), byte(g.Intn(8) / 7)}, d...)
+		if g.Intn(5) == 0 {
+			q = q[:g.Intn(len(q)+1)]
+		}
+		reqs = append(reqs, q)
+	}
+	return reqs
+}
+
+func frame(data []byte) []byte {
+	out := []byte{0, byte(len(data) >> 8), byte(len(data))}
+	out = append(out, data...)
+	return append(out, 0xff)
+}
+
+func childSocks(r *vh.Run, o *childOut) {
+	srv := newSocksServer()
+	l := &memListener{ch: make(chan net.Conn), closed: make(chan struct{})}
+	go srv.Serve(l)
+	// one exchange: greeting, request, optional UDP-associate frames; returns the reply code ("-" = none)
+	exchange := func(req []byte, frames [][]byte) string {
+		c, s := net.Pipe()
+		l.ch <- userConn{s, "alice"}
+		defer c.Close()
+		c.SetDeadline(time.Now().Add(5 * time.Second))
+		if _, err := c.Write([]byte{5, 1, 0}); err != nil {
+			return "-"
+		}
+		m := make([]byte, 2)
+		if _, err := io.ReadFull(c, m); err != nil {
+			return "-"
+		}
+		done := make(chan struct{})
+		go func() { c.Write(req); close(done) }()
+		var resp []byte
+		buf := make([]byte, 512)
+		c.SetReadDeadline(time.Now().Add(3 * time.Second))
+		for len(resp) < 10 {
+			n, err := c.Read(buf)
+			resp = append(resp, buf[:n]...)
+			if err != nil {
+				break
+			}
+		}
+		code := "-"
+		if len(resp) >= 2 && resp[0] == 5 {
+			code = fmt.Sprint(resp[1])
+		}
+		if code == "0" && len(req) > 1 && req[1] == 3 {
+			for _, f := range frames {
+				c.SetWriteDeadline(time.Now().Add(time.Second))
+				if _, err := c.Write(frame(f)); err != nil {
+					break
+				}
+				time.Sleep(20 * time.Millisecond)
+			}
+		}
+		c.Close()
+		<-done
+		return code
+	}
+	wellBehaved := func(where string) {
+		if code := exchange([]byte{5, 1, 0, 1, 10, 0, 0, 1, 0, 80}, nil); code != "2" { // a private destination: answered "not allowed by ruleset" without touching the real network
+			o.put(rec{T: "fail", Sig: "socks5-server-not-serving", What: "a well-behaved SOCKS5 client got reply " + code + " instead of 2 " + where})
+		}
+	}
+	wellBehaved("at the start")
+	for i, q := range socksRequests(r) {
+		o.put(rec{T: "pending", C: "Q " + vh.Hex(q), K: "socks5-request"})
+		code := exchange(q, nil)
+		o.put(rec{T: "count", K: "socks5-serve/reply-" + code})
+		o.put(rec{T: "distinct", K: fmt.Sprintf("socks5-serve/cmd%d/atyp%d/%s", at(q, 1), at(q, 3), code)})
+		if i%40 == 39 {
+			wellBehaved(fmt.Sprintf("after request %d", i))
+		}
+	}
+	wellBehaved("after the requests")
+	// UDP associations: headers of relayed datagrams go through the same egress decision (udpDatagramFilter)
+	assoc := []byte{5, 3, 0, 1, 0, 0, 0, 0, 0, 0}
+	for _, d := range socksDests() {
+		hdr := append([]byte{0, 0, 0}, d...)
+		for _, fr := range [][]byte{append(append([]byte(nil), hdr...), 'p', 'i', 'n', 'g'), hdr, hdr[:len(hdr)-1], append([]byte{0, 0, 1}, d...)} {
+			o.put(rec{T: "pending", C: "D " + vh.Hex(fr), K: "socks5-udp-associate-datagram"})
+			code := exchange(assoc, [][]byte{fr, fr})
+			o.put(rec{T: "count", K: "socks5-serve/associate-" + code})
+			o.put(rec{T: "distinct", K: fmt.Sprintf("socks5-udp/atyp%d/len%d", at(fr, 3), min(len(fr), 12))})
+		}
+	}
+	wellBehaved("after the UDP associations")
+}
+
+func at(b []byte, i int) int {
+	if i < len(b) {
+		return int(b[i])
+	}
+	return -1
+}
+
 // ---------------------------------------------------------------- parent: run a scenario in a child
 
 var panicSigs = []struct{ needle, sig string }{
@@ -997,6 +1313,7 @@ var panicSigs = []struct{ needle, sig string }{
 	{"block cipher is nil", "panic-packet-nil-cipher"},
 	{"block is nil", "panic-packet-nil-cipher"},
 	{"interface conversion", "panic-type-assertion"},
+	{"canonicalHostName", "panic-socks5-egress-hostname"},
 	{"index out of range", "panic-index-out-of-range"},
 	{"slice bounds out of range", "panic-slice-bounds"},
 	{"nil pointer dereference", "panic-nil-dereference"},
@@ -1080,7 +1397,7 @@ func runChildOnce(r *vh.Run, name string, limit time.Duration, final bool) (hung
 		if len(txt) > 600 {
 			txt = txt[:600]
 		}
-		if pending != "" {
+		if pending != "" && (strings.HasPrefix(pending, "W ") || strings.HasPrefix(pending, "X ")) {
 			r.Case(pending, "crash")
 		}
 		r.Count("child-crash/" + name)
@@ -1109,6 +1426,10 @@ func childMain(r *vh.Run, name string) {
 		childClient(r, o, "udp")
 	case "client-tcp":
 		childClient(r, o, "tcp")
+	case "burst-udp":
+		childBurst(r, o)
+	case "socks5-serve":
+		childSocks(r, o)
 	default:
 		o.put(rec{T: "fail", Sig: "unknown-scenario", What: name})
 	}
@@ -1298,6 +1619,7 @@ func socksFuzz(r *vh.Run) {
 	if err != nil {
 		panic(err)
 	}
+	esrv := newSocksServer()
 	for _, in := range socksInputs(r) {
 		in := in
 		// modelled parsers: case lines
@@ -1364,6 +1686,11 @@ func socksFuzz(r *vh.Run) {
 				}
 			}
 		})
+		guarded(r, "FindAction", in, func() {
+			esrv.FindAction(context.Background(), egress.Input{Protocol: appctlpb.ProxyProtocol_SOCKS5_PROXY_PROTOCOL, Data: in, Env: map[string]string{"user": "alice"}})
+			esrv.FindAction(context.Background(), egress.Input{Protocol: appctlpb.ProxyProtocol_SOCKS5_PROXY_PROTOCOL, Data: in, Env: map[string]string{"user": "nobody"}})
+			srv.FindAction(context.Background(), egress.Input{Protocol: appctlpb.ProxyProtocol_SOCKS5_PROXY_PROTOCOL, Data: in})
+		})
 		guarded(r, "handleAuthentication", in, func() { socks5.VerifC10HandleAuthentication(srv, &memConn{rd: bytes.NewReader(in)}) })
 		guarded(r, "readRequest", in, func() { socks5.VerifC10ReadRequest(srv, bytes.NewReader(in)) })
 		guarded(r, "clientNegotiateAuthentication", in, func() {
@@ -1399,7 +1726,7 @@ func main() {
 	socksFuzz(r)
 	var wg sync.WaitGroup
 	_ = wg
-	for _, sc := range []string{"server-udp", "server-tcp", "client-udp", "client-tcp"} {
+	for _, sc := range []string{"burst-udp", "socks5-serve", "server-udp", "server-tcp", "client-udp", "client-tcp"} {
 		runChild(r, sc, limit)
 	}
 	r.Rep.Rule = "endpoints run in child processes (a crash = exit status != 0 = oracle failure panic-<site>); a hostile peer with a valid credential (refcodec) sends, per probe from a fresh address/connection, an optional valid open request and 1-3 hostile segments: every protocol type (quick: 16 representatives incl. 0,1,12,13,127,255; thorough: 0..255) x session id class (0 / unknown / own / another user's / another user's from the spoofed victim address) x field class (standard / extreme seq,unAck,window,fragment,status) x body class (ok / truncated / over-long / bad tag) x payload / timestamp / low-entropy validity, fixed orders (data before open, open twice, close twice, ack for nothing, data after close, garbage) and generated histories; against server and client on TCP and UDP; the victim user's echo transfer is checked after every probe. Pure: protocol predicates over 0..255 exhaustively, GetErrorType over error shapes, SOCKS5 request/UDP-header parsers on a boundary corpus and generated byte strings (other readers under recover). distinct_nontrivial = distinct (role, transport, type, id class, field class, body class, payload, timestamp) tuples plus parser outcome classes."
